@@ -314,7 +314,17 @@ def run_config(case):
                 pass
             stage = 'run (failing configuration)'
         else:
-            f = cls(cfg)
+            try:
+                f = cls(cfg)
+            except Exception:
+                # a configuration of the documented form was rejected: see what a deployment would see (run() logs the error it re-raises)
+                f = None
+                stage = 'run (configuration rejected)'
+                classes.append('valid configuration rejected')
+                try:
+                    cls.run(build_config(case), sig_stop=False)
+                except Exception:
+                    pass
         if f is not None and not case['fail']:
             if case['lineage']:
                 stage = 'init'
